@@ -202,7 +202,10 @@ CHECKS = {
              'matches one of the working examples fragment by fragment (C13_each_matches_some) and as TEXT, for every set of '
              'extra letters: every expression of a batch parses in the modelled syntax (Rexpy/Regex.v) and the model\'s '
              'reading of it accepts one of the working examples (C13_text_each_matches_some); the tagged and untagged texts '
-             'of a pattern accept the same strings (C13_tag_same_language). The extracted '
+             'of a pattern accept the same strings (C13_tag_same_language). For the max_patterns / min_strings_per_pattern '
+             'settings: pruning only removes, every kept expression counts at least min_strings_per_pattern strings (exactly those '
+             'when max_patterns is unset) and at most max_patterns remain (C13_pruning_*); every such run is also compared with the '
+             'same run without the settings. The extracted '
              'model replays every real run (exact expressions); each returned expression is compiled, checked for anchoring, '
              'for matching an example, for duplicates and count; every run is repeated with tagging flipped and both '
              'results are compared on the examples and near-miss probes.',
